@@ -527,6 +527,6 @@ def _is_subclass(types, g: str, want: Set[str]) -> bool:
 def _namespace_walk(ctx: Ctx, rid: str) -> None:
     """The R12.4 / R12.5 obligations, re-evaluated under this property's rule id."""
     from . import c12
-    from ..report import SubCtx
+    from ..report import SubCtx, run_shared
 
-    c12.run(SubCtx(ctx, {"R12.4": (rid, ""), "R12.5": (rid, "")}))  # type: ignore[arg-type]
+    run_shared(ctx, c12.run, {"R12.4": (rid, ""), "R12.5": (rid, "")})
